@@ -108,7 +108,13 @@ Section Lin.
     | KOwner3 _ _ t p owner client cnt => sg = Some (place_owner cf (dflt rg) t p owner client cnt)
     | KClear1 _ g' => rg = sg /\ cf_accept cf g' = true
     | KClear2 _ _ => sg = option_map clear_owners_group rg
-    | KDelG2 _ _ t => sg = match remove (g_topics (dflt rg)) t with [] => None | tops => Some (mkCgroup tops (g_last (dflt rg))) end
+    | KDelG2 _ _ t => sg = match remove (g_topics (dflt rg)) t with
+                               | [] => match get (g_topics (dflt rg)) t with
+                                       | Some _ => None
+                                       | None => Some (mkCgroup [] (g_last (dflt rg)))
+                                       end
+                               | tops => Some (mkCgroup tops (g_last (dflt rg)))
+                               end
     | KFetchConsPurge _ _ => sg = None
     | _ => rg = sg
     end.
@@ -207,23 +213,29 @@ Section Lin.
                    match get (cl_consumer cl) g with
                    | Some x => if t =? 0 then Done (set seq c (mkCluster (cl_broker cls) (remove (cl_consumer cls) g))) RNone
                                else match remove (g_topics x) t with
-                                    | [] => Done (set seq c (mkCluster (cl_broker cls) (remove (cl_consumer cls) g))) RNone
+                                    | [] => match get (g_topics x) t with
+                                            | Some _ => Done (set seq c (mkCluster (cl_broker cls) (remove (cl_consumer cls) g))) RNone
+                                            | None => Done (set seq c (mkCluster (cl_broker cls) (set (cl_consumer cls) g (mkCgroup [] (g_last x))))) RNone
+                                            end
                                     | tops => Done (set seq c (mkCluster (cl_broker cls) (set (cl_consumer cls) g (mkCgroup tops (g_last x))))) RNone
                                     end
                    | None => Done seq RNone
                    end).
       { cbn [Storage.step]. unfold delete_group. rewrite Hseq, Ex. destruct (get (cl_consumer cl) g) as [x|]; [|reflexivity].
-        destruct (t =? 0); [reflexivity|]. destruct (remove (g_topics x) t); reflexivity. }
+        destruct (t =? 0); [reflexivity|]. destruct (remove (g_topics x) t); [destruct (get (g_topics x) t)|]; reflexivity. }
       destruct (get (cl_consumer cl) g) as [x|] eqn:Ey.
       + destruct (t =? 0) eqn:Et.
         * eexists. exists [DeleteGroup c g t]. split; [right; eexists; eexists; split; [reflexivity|split; [own_ok|exact Hs]]|].
           split; [rewrite bro_set; auto|]. cbn [post cont_pending]. unfold set_consumer.
           split; [rewrite bro_set; symmetry; apply bro_of; exact Hst|]. split; [reflexivity|].
           rewrite !grp_set, !get_remove_eq. reflexivity.
-        * destruct (remove (g_topics x) t) as [|tp tops] eqn:Er.
+        * destruct (remove (g_topics x) t) as [|tp tops] eqn:Er; [destruct (get (g_topics x) t) eqn:Egt|].
           -- eexists. exists [DeleteGroup c g t]. split; [right; eexists; eexists; split; [reflexivity|split; [own_ok|exact Hs]]|].
              split; [rewrite bro_set; auto|]. cbn [post cont_pending cont_group app]. split; [reflexivity|]. split; [reflexivity|]. left. split; [reflexivity|].
-             cbn [rel]. rewrite grp_set, get_remove_eq, Gst. cbn [dflt]. rewrite Er. reflexivity.
+             cbn [rel]. rewrite grp_set, get_remove_eq, Gst. cbn [dflt]. rewrite Er, Egt. reflexivity.
+          -- eexists. exists [DeleteGroup c g t]. split; [right; eexists; eexists; split; [reflexivity|split; [own_ok|exact Hs]]|].
+             split; [rewrite bro_set; auto|]. cbn [post cont_pending cont_group app]. split; [reflexivity|]. split; [reflexivity|]. left. split; [reflexivity|].
+             cbn [rel]. rewrite grp_set, get_set_eq, Gst. cbn [dflt]. rewrite Er, Egt. reflexivity.
           -- eexists. exists [DeleteGroup c g t]. split; [right; eexists; eexists; split; [reflexivity|split; [own_ok|exact Hs]]|].
              split; [rewrite bro_set; auto|]. cbn [post cont_pending cont_group app]. split; [reflexivity|]. split; [reflexivity|]. left. split; [reflexivity|].
              cbn [rel]. rewrite grp_set, get_set_eq, Gst. cbn [dflt]. rewrite Er. reflexivity.
@@ -233,9 +245,10 @@ Section Lin.
       destruct (get (cl_consumer cl) g) as [x|] eqn:Ex; [|exists seq, []; split; [left; auto|]; split; [reflexivity | exact I]].
       rewrite Gst in Hrel. cbn [dflt] in Hrel.
       exists seq, []. split; [left; auto|]. split; [reflexivity|].
-      destruct (remove (g_topics x) t) as [|tp tops] eqn:Er; cbn [post cont_pending]; unfold set_consumer;
+      destruct (remove (g_topics x) t) as [|tp tops] eqn:Er; [destruct (get (g_topics x) t)|]; cbn [post cont_pending]; unfold set_consumer;
         (split; [rewrite bro_set; symmetry; apply bro_of; exact Hst|]); (split; [reflexivity|]); rewrite grp_set, Hrel.
       + apply get_remove_eq.
+      + apply get_set_eq.
       + apply get_set_eq.
     - (* KFetchCons1: linearisation point *)
       assert (Ex : get (cl_consumer cls) g = get (cl_consumer cl) g) by (rewrite <- Gseq, <- Gst; symmetry; exact Hrel).
